@@ -748,6 +748,11 @@ func c19Close(c *Ctx) {
 				if nUses != 1 {
 					deferred = false
 				}
+				// ... and is not handed out as a value (context.AfterFunc, go statement, stored callback): the
+				// deferred call after w.watch has returned is the only way to reach it
+				if where := usedAsValue(c, fn); where != "" {
+					deferred = false
+				}
 				// single-use guard dominates the defer: SwapUint32(...) != 0 → panic
 				guarded := false
 				if deferInstr != nil {
@@ -1177,4 +1182,67 @@ func c19OwnStorage(c *Ctx) {
 	}
 	c.R.Check(bad == "", "R-C19-7", fn+":change-lists-own-their-storage", fn, c.pos(pr.Pos()), fmt.Sprintf("%d sub-slice expression(s); %s", n, bad),
 		"process() carves no change list out of a shared buffer (or caps its capacity with a three-index slice)", "changes of one interface are overwritten by, or delivered as, changes of another")
+}
+
+// usedAsValue reports where fn (or its bound-method wrapper, or the closure
+// value made from it) is used other than as the callee of a call/defer.
+func usedAsValue(c *Ctx, fn *ssa.Function) string {
+	same := func(v ssa.Value) bool {
+		switch x := v.(type) {
+		case *ssa.Function:
+			return x == fn || (x.Synthetic != "" && x.Object() != nil && x.Object() == fn.Object() && fn.Object() != nil)
+		case *ssa.MakeClosure:
+			if f, ok := x.Fn.(*ssa.Function); ok {
+				return f == fn || (f.Synthetic != "" && f.Object() != nil && f.Object() == fn.Object() && fn.Object() != nil)
+			}
+		}
+		return false
+	}
+	for _, g := range c.srcFuncs() {
+		for _, b := range g.Blocks {
+			for _, in := range b.Instrs {
+				if mc, ok := in.(*ssa.MakeClosure); ok && same(mc) {
+					// a closure value: every use must be the callee position of a call or defer
+					if mc.Referrers() != nil {
+						for _, r := range *mc.Referrers() {
+							ci, isCall := r.(ssa.CallInstruction)
+							if _, isGo := r.(*ssa.Go); isGo || !isCall || ci.Common().Value != ssa.Value(mc) {
+								return c.fname(g)
+							}
+							for _, a := range ci.Common().Args {
+								if a == ssa.Value(mc) {
+									return c.fname(g)
+								}
+							}
+						}
+					}
+					continue
+				}
+				var callee ssa.Value
+				if ci, ok := in.(ssa.CallInstruction); ok {
+					callee = ci.Common().Value
+					if _, isGo := in.(*ssa.Go); isGo && same(callee) {
+						return c.fname(g)
+					}
+				}
+				for _, op := range in.Operands(nil) {
+					if *op == nil || !same(*op) {
+						continue
+					}
+					if *op == callee {
+						// callee position: fine unless it is also an argument
+						ci := in.(ssa.CallInstruction)
+						for _, a := range ci.Common().Args {
+							if same(a) {
+								return c.fname(g)
+							}
+						}
+						continue
+					}
+					return c.fname(g)
+				}
+			}
+		}
+	}
+	return ""
 }
